@@ -19,6 +19,10 @@ class ChildCrashed(Exception):
     """The child died without reporting (signal, os._exit in library code, ...)."""
 
 
+class ChildTimeout(HarnessFault):
+    """The child exceeded its time budget (SIGALRM): inconclusive, never a verdict."""
+
+
 def _read_all(fd):
     chunks = []
     while True:
@@ -83,6 +87,8 @@ def run_forked(fn, *args, timeout=120, **kwargs):
     data = _read_all(r)
     os.close(r)
     _, status = os.waitpid(pid, 0)
+    if not data and os.WIFSIGNALED(status) and os.WTERMSIG(status) == signal.SIGALRM:
+        raise ChildTimeout(f'case exceeded its time budget of {timeout}s (inconclusive)')
     if not data:
         raise ChildCrashed(f'child exited with status {status} and no payload')
     return pickle.loads(data)
